@@ -6,6 +6,19 @@ BASELINE = ("cd /repo && cargo nextest run --workspace --no-fail-fast --test-thr
             "|| cargo test --workspace --no-fail-fast --offline")
 
 CHECKS = {
+    "C16": dict(
+        category="exploration",
+        text=("The product of the six presets, the four store_* flags and the mass-matrix options (224 configurations) is enumerated "
+              "completely; for each configuration generated chain histories on wall densities (divergences and transformation updates "
+              "both occur) are run through the public API and every draw's statistics are checked against the declared schema: names "
+              "and order, value variant vs declared type, element count vs declared dimension sizes, presence of optional statistics "
+              "exactly when their option is on, divergence fields exactly on divergent draws, transformation-update fields exactly on "
+              "draws after which the transformation in force changes (with the right id), counters +1 per draw, constant chain id."),
+        design_ref="DESIGN.md section 3, C16",
+        note=("Duplicate statistic names (the MCLMC presets declare 'tuning' twice) are not excluded by the property and are recorded "
+              "as an observation only. The update event of draw 0 reports the transformation installed at initialisation."),
+        technique="exhaustive enumeration of the option product x proptest-generated histories, schema validity predicate (public API)",
+    ),
     "C06": dict(
         category="exploration",
         text=("Chains of all six presets are run through the public API on generated configurations (num_tune 0..2000 weighted to small "
